@@ -161,7 +161,8 @@ func vToken1(name string) string {
 // slice 2: request assembly is a deterministic function of the configuration
 
 // VH_C18_assembly: case 0: overlapping path-parameter names, every map order;
-// case 1: precedence of request-level over client-level values; additive headers/query.
+// case 1: precedence of request-level over client-level values; additive headers/query;
+// case 2: effective timeout for every pair of client-level and request-level timeouts.
 func VH_C18_assembly(caseID int) {
 	c := New()
 	c.SetBaseURL("http://h.io")
@@ -210,6 +211,33 @@ func VH_C18_assembly(caseID int) {
 		vAssert(string(raw.Header.Cookie("ck")) == "r"+rv, "request-level-cookie-wins")
 		hs := raw.Header.PeekAll("X-H")
 		vAssert(len(hs) == 2, "headers-additive")
+		vReach("assembled")
+	case 2:
+		// the request-level timeout takes precedence over the client-level one
+		tc := vInt("tclient", 0, 3)
+		tr := vInt("trequest", 0, 3)
+		c.SetTimeout(time.Duration(tc) * time.Second)
+		req.SetTimeout(time.Duration(tr) * time.Second)
+		co := &core{client: c, req: req, ctx: context.Background()}
+		start := time.Now()
+		cancel := co.timeout()
+		d, has := co.ctx.Deadline()
+		want := tr
+		if tr == 0 {
+			want = tc
+		}
+		if want == 0 {
+			vAssert(!has, "no-timeout-no-deadline")
+		} else {
+			vAssert(has, "deadline-set")
+			if has {
+				secs := d.Sub(start) / time.Second
+				vAssert(secs == time.Duration(want), "request-level-timeout-wins")
+			}
+		}
+		if cancel != nil {
+			cancel()
+		}
 		vReach("assembled")
 	}
 }
